@@ -760,3 +760,14 @@ Fixpoint revoke_all (s : dca) (h : N) (reqs : list (N * N)) : outcome dca :=
 
 (** the class holds a certificate, published or suspended, for the key *)
 Definition holds_key (dc : dclass) (k : N) : bool := amem k (d_issued dc) || amem k (d_susp dc).
+
+(** The same on the one parent class of the sync model: the requests of a class the child gave up, through
+    [p_revoke] one by one. [None]: one of them was refused (the exchange ends there). *)
+Fixpoint p_revoke_all (pcn : N) (pc : option dclass) (dch : dchild) (reqs : list (N * N)) : option (option dclass * dchild) :=
+  match reqs with
+  | [] => Some (pc, dch)
+  | (crcn, ki) :: r => match p_revoke pcn pc dch crcn ki with
+                       | Some (pc', dch', _) => p_revoke_all pcn pc' dch' r
+                       | None => None
+                       end
+  end.
